@@ -135,6 +135,15 @@ static void vegas_case(report& r, std::string const& id, sz iters, int gridkind,
     auto chk = fresh();
     std::vector<seen<T>> log;
     if (mode == 0) { chk = hep::vegas(integrand, calls, chk, vf::never_stop()); log = LOG<T>(); }
+    else if (mode == 60)
+    {
+        // another run first (one iteration with other calls), a look at the grid it leads to, back to the start, then the run proper
+        chk = hep::vegas(integrand, std::vector<sz>{calls[0] + 3}, chk, vf::never_stop());
+        (void) chk.pdf();
+        chk.rollback(0);
+        LOG<T>().clear();
+        chk = hep::vegas(integrand, calls, chk, vf::never_stop()); log = LOG<T>();
+    }
     else if (mode < 100)
     {
         sz const split = mode == 50 ? 0 : sz(mode);
@@ -242,6 +251,14 @@ static void mc_case_with(report& r, std::string const& id, sz iters, int wkind, 
     auto chk = fresh();
     std::vector<seen<T>> log;
     if (mode == 0) { chk = hep::multi_channel(integrand, calls, chk, vf::never_stop()); log = LOG<T>(); }
+    else if (mode == 60)
+    {
+        chk = hep::multi_channel(integrand, std::vector<sz>{calls[0] + 3}, chk, vf::never_stop());
+        (void) chk.channel_weights();
+        chk.rollback(0);
+        LOG<T>().clear();
+        chk = hep::multi_channel(integrand, calls, chk, vf::never_stop()); log = LOG<T>();
+    }
     else if (mode < 100)
     {
         sz const split = mode == 50 ? 0 : sz(mode);
@@ -365,7 +382,7 @@ static void for_type(report& r)
     if (!r.want_prefix(tn)) return;
     for (sz iters = 1; iters <= (r.a().thorough() ? 5u : 4u); ++iters)
     {
-        std::vector<int> modes = {0, 50};      // 50: written to text and read back before the first iteration
+        std::vector<int> modes = {0, 50, 60};  // 50: written to text and read back before the first iteration; 60: after another run and a rollback to the start
         for (sz s = 1; s < iters; ++s) modes.push_back(int(s));
         for (int p = 1; p <= (r.a().thorough() ? 4 : 3); ++p) modes.push_back(100 + p);
         // a serial run resumed under MPI (from text, after s iterations)
